@@ -36,6 +36,8 @@ def obligations(tier):
         v("stack", "StackFrame::add_new_frame", "Ok <=> len + max_stack_size(state) <= stack.max_stack_size; Err(StackOverflow(limit)) leaves the stack unchanged; Ok pushes exactly the frame {offset: len-args, state, excess}", "vm/src/stack.rs::StackFrame::add_new_frame"),
         v("stack", "StackFrame::enter_scope_excess", "the entry point of every call: Ok <=> len + max_stack_size(state) <= limit, Err(StackOverflow(limit)) otherwise; Ok pushes exactly one frame and leaves the values alone", "vm/src/stack.rs::StackFrame::enter_scope_excess"),
         v("stack", "StackFrame::enter_scope", "same guarantee for enter_scope (excess = false)", "vm/src/stack.rs::StackFrame::enter_scope"),
+        v("compiler", "compile_primitive::or", "tail position is propagated into the right operand of `||` (so a recursive call there is a TailCall and runs in constant stack)", "vm/src/compiler.rs::compile_primitive (|| block)"),
+        v("compiler", "compile_primitive::and", "tail position is propagated into the right operand of `&&`", "vm/src/compiler.rs::compile_primitive (&& block)"),
         v("compiler", "Instruction::adjust", "adjust(i) == documented stack effect of i", "vm/src/types.rs::Instruction::adjust"),
         v("compiler", "FunctionEnv::increase_stack", "stack_size += n; max_stack_size = max(old max, new size); invariant max >= size", "vm/src/compiler.rs::FunctionEnv::increase_stack"),
         v("compiler", "FunctionEnv::emit", "size' = size + effect(i) (Slide(0) is dropped); instruction appended; max monotone and >= size", "vm/src/compiler.rs::FunctionEnv::emit"),
